@@ -16,7 +16,7 @@ UNITS = {
                  about="posix::prep_exec / PrepExec::new / exec / assemble_exe: which program paths are tried, in which order, with what buffer capacity"),
     "splitpath": dict(template="units/splitpath.vt.rs", rlimit=50, tops=["split_path"],
                       about="the tokenizer closure of posix::split_path, verified as the function it is, against the recursive definition of PATH segments"),
-    "quote": dict(template="units/quote.vt.rs", rlimit=50, tops=["Exec::display_escape", "Exec::to_cmdline_lossy"],
+    "quote": dict(template="units/quote.vt.rs", rlimit=50, tops=["Exec::display_escape", "Exec::to_cmdline_lossy", "debug_fmt"],
                   about="Exec::display_escape / nice_char: the result is one shell word for the string; Exec::to_cmdline_lossy: the text is the environment prefix, the quoted program and every argument preceded by one blank and quoted, in order"),
     "wincmd": dict(template="units/wincmd.vt.rs", rlimit=50, tops=["assemble_cmdline", "append_quoted"],
                    about="the cfg(windows) functions assemble_cmdline / append_quoted against the Microsoft command-line parsing rules written as a recursive spec function; the round trip is a proved lemma"),
@@ -115,7 +115,7 @@ UNIT_TRUST = {
         "quoting world (units/models/quotew.rs): shell_word_for (a non-empty run of characters from [-_.,/0-9A-Za-z], or the single-quoted form with embedded quotes spliced as '\\'') is the oracle for 'a POSIX shell reads this word as s'; it is validated against the real /bin/sh only by the bounded scenario c19_shell_roundtrip",
         "R6: format!(\"'{}'\", s.replace(...)) = fmt_squote_replaced; s.chars().all(f) = str_all; str::is_empty, char::is_ascii_alphanumeric by their std contracts; Cow<str> by a two-variant shim",
         "to_cmdline_lossy is under contract with its whole body (three loops with invariants). R6 there: env::vars_os().collect() = env_vars_os_vec (the calling process's environment, uninterpreted); iter().map(|(a, b)| (a, b)).collect() into a HashMap = ref_map (last entry of a name wins on lookup, membership = membership in the list); m.get(&k) == Some(&v) = map_has; `for (k, v) in &vec` / `for (k, _) in vec` = loop { match it.next() } over PairsIter / IntoPairsIter (Verus for-loops have no `continue`); &Cow<str> used as &str = cow_str; OsStr::to_string_lossy is an uninterpreted decoding (the identity on the valid Unicode the property speaks about); String::new/push/push_str by vstd's specifications; Exec is the real struct, PopenConfig is reduced to the field `env`",
-        "the Debug impls (Exec: the text of to_cmdline_lossy inside 'Exec { }'; Pipeline: stages joined with ' | ') are covered only by the bounded scenario, not by a contract",
+        "the Debug impls of Exec and Pipeline are under contract (emitted as inherent methods debug_fmt): what is written is NAME { text }, for a pipeline the stages' command lines in order joined by the literal \" | \". R6: write!(f, \"NAME {{ {} }}\", x) = write_braced (a Formatter is the text written so far); [String]::join = join_strings; vec![] = Vec::new(); Pipeline is reduced to the field `cmds`; one extensionality hint is part of the write! rewrite",
     ],
     "exec": [
         "exec world (units/models/execw.rs): segments(PATH) = the maximal non-empty colon-free runs (units/models/segments.rs; the tokenizer closure of split_path is proved against it in unit splitpath, and a bounded Kani harness runs the real iterator on 3-byte PATHs); "
